@@ -26,8 +26,8 @@ type Hooks interface {
 // NoHooks is the default Hooks.
 type NoHooks struct{}
 
-func (NoHooks) Pin(*Frame, ssa.Value) *Term            { return nil }
-func (NoHooks) Init(*Object, Path, types.Type) *Term   { return nil }
+func (NoHooks) Pin(*Frame, ssa.Value) *Term          { return nil }
+func (NoHooks) Init(*Object, Path, types.Type) *Term { return nil }
 func (NoHooks) Call(*Interp, *Frame, ssa.CallInstruction, *ssa.Function, []*Term) (bool, *Term) {
 	return false, nil
 }
@@ -66,7 +66,7 @@ type Interp struct {
 	// InlineExt lists non-module functions (by ssa String()) that are inlined.
 	InlineExt map[string]bool
 	// Pure lists non-module functions without effects on their pointer arguments.
-	Pure func(name string) bool
+	Pure  func(name string) bool
 	Steps int
 }
 
@@ -170,6 +170,9 @@ func (in *Interp) InitGlobals(pkg *ssa.Package) {
 	}
 	in.Hooks = save
 }
+
+// FreezeGlobals marks the global memory read-only so that loads are cached.
+func (in *Interp) FreezeGlobals() { in.Global.Frozen = true }
 
 type initHooks struct{ NoHooks }
 
@@ -492,7 +495,7 @@ func (fr *Frame) signature() string {
 			for _, k := range mo.Keys() {
 				sb.WriteString(k)
 				sb.WriteByte('=')
-				sb.WriteString(mo.cells[k].val.Key())
+				sb.WriteString(mo.ValueOf(k).Key())
 				sb.WriteByte(';')
 			}
 		}
@@ -708,8 +711,10 @@ func (in *Interp) joinMems(fr *Frame, b int, mems []*Mem, gs []*Term, header boo
 	out := NewMem()
 	keys := map[string]*cell{}
 	for _, m := range mems {
-		for k, c := range m.cells {
-			keys[k] = c
+		for id, cs := range m.objs {
+			for pk, c := range cs {
+				keys[id+"|"+pk] = c
+			}
 		}
 	}
 	var ks []string
@@ -719,10 +724,11 @@ func (in *Interp) joinMems(fr *Frame, b int, mems []*Mem, gs []*Term, header boo
 	sort.Strings(ks)
 	for _, k := range ks {
 		c := keys[k]
+		pk := c.path.String()
 		vs := make([]*Term, len(mems))
 		allEq := true
 		for i, m := range mems {
-			if mc, ok := m.cells[k]; ok {
+			if mc, ok := m.lookupKey(c.obj.ID, pk); ok {
 				vs[i] = mc.val
 			} else {
 				vs[i] = in.load(m, c.obj, c.path)
@@ -732,23 +738,23 @@ func (in *Interp) joinMems(fr *Frame, b int, mems []*Mem, gs []*Term, header boo
 			}
 		}
 		if allEq {
-			out.cells[k] = &cell{c.obj, c.path, vs[0]}
+			out.put(c.obj, c.path, vs[0])
 			continue
 		}
 		skey := fmt.Sprintf("mem#%s#%d#%s", fr.ID, b, k)
 		if a := fr.sticky[skey]; a != nil {
-			out.cells[k] = &cell{c.obj, c.path, a}
+			out.put(c.obj, c.path, a)
 			continue
 		}
 		// weak-update collapse: join(old, weak(site,j,old)) = weak(site,j,old)
 		if w := collapseWeak(vs); w != nil {
-			out.cells[k] = &cell{c.obj, c.path, w}
+			out.put(c.obj, c.path, w)
 			continue
 		}
 		if header {
 			a := Atom(skey, typeAt(c.obj.T, c.path))
 			fr.sticky[skey] = a
-			out.cells[k] = &cell{c.obj, c.path, a}
+			out.put(c.obj, c.path, a)
 			continue
 		}
 		res := vs[len(vs)-1]
@@ -758,7 +764,7 @@ func (in *Interp) joinMems(fr *Frame, b int, mems []*Mem, gs []*Term, header boo
 		if len(res.Key()) > 4000 {
 			res = Atom(skey, typeAt(c.obj.T, c.path))
 		}
-		out.cells[k] = &cell{c.obj, c.path, res}
+		out.put(c.obj, c.path, res)
 	}
 	return out
 }
@@ -1208,6 +1214,22 @@ func (in *Interp) loadPtr(m *Mem, a *Term, t types.Type) *Term {
 }
 
 func (in *Interp) load(m *Mem, o *Object, p Path) *Term {
+	if m.Frozen {
+		k := cellKey(o, p)
+		if v, ok := m.cache[k]; ok {
+			return v
+		}
+		v := in.loadUncached(m, o, p)
+		if m.cache == nil {
+			m.cache = map[string]*Term{}
+		}
+		m.cache[k] = v
+		return v
+	}
+	return in.loadUncached(m, o, p)
+}
+
+func (in *Interp) loadUncached(m *Mem, o *Object, p Path) *Term {
 	if j := p.hasSym(); j >= 0 {
 		arr := in.load(m, o, p[:j])
 		v := Index(arr, p[j].Sym, typeAt(o.T, p[:j+1]))
@@ -1217,17 +1239,23 @@ func (in *Interp) load(m *Mem, o *Object, p Path) *Term {
 		return v
 	}
 	t := typeAt(o.T, p)
+	cs := m.cellsOf(o)
 	var exact, coarse *cell
 	finer := false
-	for _, c := range m.cellsOf(o) {
-		switch {
-		case len(c.path) == len(p) && isPrefix(p, c.path):
+	if len(cs) > 0 {
+		if c, ok := cs[p.String()]; ok {
 			exact = c
-		case len(c.path) > len(p) && isPrefix(p, c.path):
-			finer = true
-		case len(c.path) < len(p) && isPrefix(c.path, p):
-			if coarse == nil || len(c.path) > len(coarse.path) {
+		}
+		// coarse prefixes: walk up the path
+		for k := len(p) - 1; k >= 0 && coarse == nil; k-- {
+			if c, ok := cs[p[:k].String()]; ok {
 				coarse = c
+			}
+		}
+		for _, c := range cs {
+			if len(c.path) > len(p) && isPrefix(p, c.path) {
+				finer = true
+				break
 			}
 		}
 	}
@@ -1285,7 +1313,7 @@ func (in *Interp) materialise(m *Mem, o *Object, p Path, t types.Type) *Term {
 	}
 	// too large or not an aggregate: opaque, but identity-carrying
 	var sb strings.Builder
-	for _, c := range m.cellsOf(o) {
+	for _, c := range m.sortedCells(o) {
 		if isPrefix(p, c.path) {
 			sb.WriteString(c.path.String() + "=" + c.val.Key() + ";")
 		}
@@ -1446,7 +1474,7 @@ func (in *Interp) call(fr *Frame, x *ssa.Call, mem *Mem) (res *Term, noReturn bo
 		return nil, true
 	}
 	// adopt callee's memory
-	mem.cells = out.cells
+	mem.objs = out.objs
 	return r, false
 }
 
